@@ -15,6 +15,7 @@ static int plan_persist, enabled = 0;
 static const void * last_realloc_ptr;
 static size_t last_realloc_sz;
 void (*aw_free_hook)(void *, size_t);
+void (*aw_strdup_hook)(void *, size_t);
 
 static size_t hp(const void * p) { return (((uintptr_t)p) >> 4) % NB; }
 static void add(const void * p, size_t sz) {
@@ -90,5 +91,6 @@ char * __wrap_strdup(const char * s) {
 	size_t n = strlen(s) + 1;
 	char * p = __wrap_malloc(n);
 	if (p) memcpy(p, s, n);
+	if (p && enabled && aw_strdup_hook != NULL) aw_strdup_hook(p, n);
 	return (p);
 }
